@@ -88,6 +88,8 @@ PROPS = {
                      "Hannibal.C04q_holds", "Hannibal.C04q_current", "Hannibal.wellWired04q_current", "Hannibal.monC04q_step"],
         "cases": {"quick": {"C04": 1500}, "thorough": {"C04": 20000, "x:C04": 320, "C02": 3000, "C17": 3000}},
         "assumptions": COMMON_ASSUMPTIONS + [
+            "'(its call returns Ok)': monC02c in the chain - a call whose message was handled to completion does not return "
+            "an error - is theorem C02c_holds (listed under C02)",
             "the drain-barrier clauses (monC04q: sends acknowledged before the first stop request are handled; nothing "
             "submitted after an accepted stop returned is handled and its call errs; graceful end by quiescence) are "
             "theorem C04q_holds under WellWired05 and wf01 (message numbers / operation ids fresh: checked on every "
@@ -139,12 +141,17 @@ PROPS = {
         ],
     },
     "C02": {
-        "modules": ["Hannibal.Props.C02", "Hannibal.Props.C02Current", "Hannibal.Props.C02Guarded"],
+        "modules": ["Hannibal.Props.C02", "Hannibal.Props.C02Current", "Hannibal.Props.C02Guarded",
+                    "Hannibal.Props.C02C", "Hannibal.Props.C02CCurrent"],
         "theorems": ["Hannibal.C02_holds", "Hannibal.C02_current", "Hannibal.C02_split", "Hannibal.C02t_holds",
-                     "Hannibal.C02orig_holds", "Hannibal.C02orig_current", "Hannibal.C02g_holds"],
+                     "Hannibal.C02orig_holds", "Hannibal.C02orig_current", "Hannibal.C02g_holds",
+                     "Hannibal.C02c_holds", "Hannibal.C02c_current"],
         "cases": {"quick": {"C02": 1500}, "thorough": {"C02": 20000, "x:C02": 320, "C06": 3000, "C04": 3000}},
         "assumptions": COMMON_ASSUMPTIONS + [
             "operation ids of the trace are fresh (opIdsFresh, checked on every real trace by monC02wf)",
+            "'a call whose own message was handled to completion does not return an error' (monC02c, the converse of the "
+            "reply-identity clause) is theorem C02c_holds for runs with fresh message numbers and operation ids (wf01; "
+            "witnesses c02cReuseMsg, c02cReuseOp)",
             "'an await begun after a graceful termination returns Ok' (monC02t) is false of unguarded runs (the model "
             "then allows a cancel between the return of stopped() and the end of the task, where the loop future has "
             "no suspension point); it is proved for guarded runs (C02g_holds: the property as first written), which "
